@@ -265,7 +265,9 @@ def %NAME%(self, other):
         return NotImplemented
     try:
         other = mpf.context.convert(other, strings=False)
-    except TypeError:
+    except (TypeError, ValueError):
+        # ValueError: an interval of nonzero width; its own (reflected)
+        # method handles the operation
         return NotImplemented
     return self.%NAME%(other)
 """
@@ -443,7 +445,7 @@ class _mpc(mpnumeric):
         try:
             y = cls.context.convert(x)
             return y
-        except TypeError:
+        except (TypeError, ValueError):
             return NotImplemented
 
     def __eq__(s, t):
